@@ -765,7 +765,8 @@ func main() {
 		"string templates, huge literals, invalid UTF-8, multi-byte runes) + grammar-generated programs + mutations of them (token " +
 		"insert/delete/duplicate/swap, truncation, byte flips, invalid UTF-8 and multi-byte insertion) + random token soup + random bytes " +
 		"+ a systematic recovery stream (for every token position of exemplar programs covering every grammar production: truncation, replacement of the " +
-		"next construct by each closer/separator/keyword, `= <junk>` inserted; parse/check monitor only). " +
+		"next construct by each closer/separator/keyword, `= <junk>` inserted; parse/check monitor only) + a systematic numeric-literal stream " +
+		"(every base, 0..17 digits, `_` separators in every position and count, in every import form, pragmas, expressions, array sizes, paths). " +
 		"Each input is lexed twice through the pool after different dirty predecessors (token streams must be identical), checked by a Go oracle " +
 		"(tiling, ranges, line/column from the byte offset), parsed and (if accepted) checked; inputs up to 400 bytes also go to the Coq lexer model. " +
 		"non-trivial = input has a non-ASCII byte, more than one line, or a lexer error token; distinct = distinct source text"
@@ -800,6 +801,7 @@ func main() {
 	}
 	// 2b. systematic recovery stream derived from the exemplar programs (and, thorough tier, from generated ones)
 	st.recoveryStream(exemplarPrograms(), 1)
+	st.literalStream()
 	if *tier == "thorough" {
 		var small []string
 		for _, b := range pool {
